@@ -215,6 +215,22 @@ def build_inovesa(flavour="plain"):
         return exe
 
 
+def build_h5dump():
+    with Lock("h5dump"):
+        src = os.path.join(VERIF, "harness", "h5dump.cpp")
+        with open(src, "rb") as f:
+            key = sha(f.read())[:16]
+        exe = os.path.join(CACHE, "h5dump-" + key)
+        if not os.path.exists(exe):
+            cmd = ["g++", "-O1", "-std=c++14", "-I/usr/include/hdf5/serial", src, "-o", exe + ".tmp",
+                   "-L/usr/lib/x86_64-linux-gnu/hdf5/serial", "-lhdf5"]
+            p = subprocess.run(cmd, stdout=subprocess.PIPE, stderr=subprocess.STDOUT, text=True)
+            if p.returncode != 0:
+                raise BuildError("h5dump build failed:\n" + p.stdout[-3000:])
+            os.replace(exe + ".tmp", exe)
+        return exe
+
+
 # ------------------------------------------------------------------ translator / lean
 
 def run_translator():
